@@ -134,6 +134,8 @@ class StackWorld(object):
       self.member_objs.append(ScalesUriParser.Server(Endpoint('h%d' % i, 1000 + i)))
     self.tracker = CallTracker(default_timeout=cfg['timeout'])
     self.tracker.id_from_args = lambda args, kwargs: srv.call_id_of(None, args)
+    from sim.calls import TransportDeliveries
+    self.deliveries = TransportDeliveries()
     world = self
 
     class LoggingFactory(object):
@@ -540,6 +542,12 @@ class StackWorld(object):
     if self.stack == 'mux':
       self.check_c11_c13_end()
     self.check_c09()
+    # C08 (sampled here, enumerated in W-transport): at the transport's own
+    # interface no request is handed more than one response
+    for n, kinds in self.deliveries.doubles():
+      REC.violation('C08', 'failed_twice', 'a transport handed one request %d responses: %s' % (n, kinds),
+                    {'stack': self.stack, 'at_transport': True})
+      break
     self.check_c18()
     self.check_c04()
     outs = {}
